@@ -23,6 +23,14 @@ type omOp struct {
 	Kind string `json:"kind"`
 	K    string `json:"k,omitempty"`
 	V    int    `json:"v,omitempty"`
+	// Pairs: for set_many (inserted in order) and decode_new/decode_zero (the
+	// members of the JSON text, duplicates allowed)
+	Pairs []omKV `json:"pairs,omitempty"`
+}
+
+type omKV struct {
+	K string `json:"k"`
+	V int    `json:"v"`
 }
 
 func (o omOp) String() string {
@@ -31,6 +39,8 @@ func (o omOp) String() string {
 		return fmt.Sprintf("set(%s,%d)", o.K, o.V)
 	case "remove":
 		return fmt.Sprintf("remove(%s)", o.K)
+	case "set_many", "decode_new", "decode_zero":
+		return fmt.Sprintf("%s%v", o.Kind, o.Pairs)
 	}
 	return o.Kind
 }
@@ -111,6 +121,30 @@ func (m omModel) apply(op omOp) omModel {
 		return out
 	case "sort_const": // less is always false: order must not change
 		return append(omModel{}, m...)
+	case "sort_tie_asc", "sort_tie_desc": // compares the first byte only: ties keep their order
+		out := append(omModel{}, m...)
+		less := func(a, b string) bool { return a[0] < b[0] }
+		if op.Kind == "sort_tie_desc" {
+			less = func(a, b string) bool { return a[0] > b[0] }
+		}
+		for i := 1; i < len(out); i++ {
+			for j := i; j > 0 && less(out[j].k, out[j-1].k); j-- {
+				out[j], out[j-1] = out[j-1], out[j]
+			}
+		}
+		return out
+	case "set_many":
+		out := append(omModel{}, m...)
+		for _, p := range op.Pairs {
+			out = out.apply(omOp{Kind: "set", K: p.K, V: p.V})
+		}
+		return out
+	case "decode_new", "decode_zero": // a fresh map decoded from a JSON text
+		out := omModel{}
+		for _, p := range op.Pairs {
+			out = out.apply(omOp{Kind: "set", K: p.K, V: p.V})
+		}
+		return out
 	case "json_new", "json_zero":
 		return append(omModel{}, m...)
 	case "from_map":
@@ -143,6 +177,34 @@ func omApply(m omImpl, op omOp) (omImpl, error) {
 		m.Sort(func(i, j string) bool { return i > j })
 	case "sort_const":
 		m.Sort(func(i, j string) bool { return false })
+	case "sort_tie_asc":
+		m.Sort(func(i, j string) bool { return i[0] < j[0] })
+	case "sort_tie_desc":
+		m.Sort(func(i, j string) bool { return i[0] > j[0] })
+	case "set_many":
+		for _, p := range op.Pairs {
+			m.Set(p.K, p.V)
+		}
+	case "decode_new", "decode_zero":
+		var sb strings.Builder
+		sb.WriteString("{")
+		for i, p := range op.Pairs {
+			if i > 0 {
+				sb.WriteString(", ")
+			}
+			fmt.Fprintf(&sb, "%q: %d", p.K, p.V)
+		}
+		sb.WriteString("}")
+		var dst omImpl
+		if op.Kind == "decode_new" {
+			dst = orderedmap.New[string, int]()
+		} else {
+			dst = &orderedmap.Map[string, int]{}
+		}
+		if err := json.Unmarshal([]byte(sb.String()), dst); err != nil {
+			return m, fmt.Errorf("UnmarshalJSON(%s): %w", sb.String(), err)
+		}
+		return dst, nil
 	case "json_new", "json_zero":
 		raw, err := m.MarshalJSON()
 		if err != nil {
@@ -317,25 +379,75 @@ func omObserve(m omImpl, model omModel, alphabet []string) []vlib.Violation {
 	return vs
 }
 
-// c19Check executes a sequence against implementation and model.
-func c19Check(c c19Case) []vlib.Violation {
-	alphabet := []string{"a", "b", "c", "d", "e", "f"}
-	m := orderedmap.New[string, int]()
-	model := omModel{}
+// c19State is the map under test plus the maps it was derived from
+// ("shadows"): every map ever produced must keep behaving like its own model,
+// whatever is done to the others.
+type c19State struct {
+	cur     omImpl
+	model   omModel
+	shadows []c19Shadow
+}
+
+type c19Shadow struct {
+	m     omImpl
+	model omModel
+}
+
+func derivesNewMap(kind string) bool {
+	switch kind {
+	case "filter_v1", "filter_not_first_key", "map_flip", "json_new", "json_zero", "from_map", "decode_new", "decode_zero":
+		return true
+	}
+	return false
+}
+
+// c19Exec executes a sequence against implementation and model. When
+// observeAll is false only the state after the last step is observed (used by
+// the exhaustive enumeration, where every prefix is observed at its own node).
+func c19Exec(c c19Case, alphabet []string, observeAll bool) []vlib.Violation {
+	st := c19State{cur: orderedmap.New[string, int](), model: omModel{}}
 	for i, op := range c.Ops {
-		var err error
-		sig, msg, panicked := vlib.Guard(func() { m, err = omApply(m, op) })
-		if panicked {
-			return []vlib.Violation{vlib.V("panic:"+op.Kind+":len"+lenClass(len(model))+":"+sig, "step %d %s on %s panicked: %s", i, op, fmtPairs(model), msg)}
+		if op.Kind == "swap" {
+			if n := len(st.shadows); n > 0 {
+				sh := st.shadows[n-1]
+				st.shadows[n-1] = c19Shadow{st.cur, st.model}
+				st.cur, st.model = sh.m, sh.model
+			}
+		} else {
+			var err error
+			var next omImpl
+			sig, msg, panicked := vlib.Guard(func() { next, err = omApply(st.cur, op) })
+			if panicked {
+				return []vlib.Violation{vlib.V("panic:"+op.Kind+":len"+lenClass(len(st.model))+":"+sig, "step %d %s on %s panicked: %s (ops %v)", i, op, fmtPairs(st.model), msg, c.Ops[:i+1])}
+			}
+			if err != nil {
+				return []vlib.Violation{vlib.V("error:"+op.Kind, "step %d %s on %s: %v (ops %v)", i, op, fmtPairs(st.model), err, c.Ops[:i+1])}
+			}
+			if derivesNewMap(op.Kind) {
+				st.shadows = append(st.shadows, c19Shadow{st.cur, st.model})
+				if len(st.shadows) > 2 {
+					st.shadows = st.shadows[len(st.shadows)-2:]
+				}
+			}
+			st.cur = next
+			st.model = st.model.apply(op)
 		}
-		if err != nil {
-			return []vlib.Violation{vlib.V("error:"+op.Kind, "step %d %s on %s: %v", i, op, fmtPairs(model), err)}
+		if !observeAll && i != len(c.Ops)-1 {
+			continue
 		}
-		model = model.apply(op)
 		var vs []vlib.Violation
-		sig, msg, panicked = vlib.Guard(func() { vs = omObserve(m, model, alphabet) })
+		sig, msg, panicked := vlib.Guard(func() {
+			vs = omObserve(st.cur, st.model, alphabet)
+			for _, sh := range st.shadows {
+				for _, v := range omObserve(sh.m, sh.model, alphabet) {
+					v.Sig = "shadow:" + v.Sig
+					v.Msg = "a map this one was derived from (or that was derived from it) changed: " + v.Msg
+					vs = append(vs, v)
+				}
+			}
+		})
 		if panicked {
-			return []vlib.Violation{vlib.V("panic:observe:"+sig, "observing after step %d %s panicked: %s", i, op, msg)}
+			return []vlib.Violation{vlib.V("panic:observe:"+sig, "observing after step %d %s panicked: %s (ops %v)", i, op, msg, c.Ops[:i+1])}
 		}
 		if len(vs) > 0 {
 			for j := range vs {
@@ -348,6 +460,20 @@ func c19Check(c c19Case) []vlib.Violation {
 	return nil
 }
 
+var c19RandomAlphabet = func() []string {
+	var out []string
+	for _, a := range []string{"a", "b", "c", "d"} {
+		for _, n := range []string{"", "1", "2", "3", "4", "5"} {
+			out = append(out, a+n)
+		}
+	}
+	return out
+}()
+
+func c19Check(c c19Case) []vlib.Violation {
+	return c19Exec(c, c19RandomAlphabet, true)
+}
+
 func lenClass(n int) string {
 	if n == 0 {
 		return "0"
@@ -356,7 +482,8 @@ func lenClass(n int) string {
 }
 
 func c19Nontrivial(c c19Case) bool {
-	// a removal or derived map after at least two insertions, or an overwrite
+	// an overwrite, or a removal / derived map / sort / encode after at least
+	// two insertions
 	sets, interesting := 0, false
 	seen := map[string]bool{}
 	for _, op := range c.Ops {
@@ -367,6 +494,14 @@ func c19Nontrivial(c c19Case) bool {
 			}
 			seen[op.K] = true
 			sets++
+		case "set_many", "decode_new", "decode_zero":
+			for _, p := range op.Pairs {
+				if seen[p.K] {
+					interesting = interesting || sets >= 2
+				}
+				seen[p.K] = true
+				sets++
+			}
 		default:
 			if sets >= 2 {
 				interesting = true
@@ -376,19 +511,25 @@ func c19Nontrivial(c c19Case) bool {
 	return interesting
 }
 
-var c19Alphabet3 = func() []omOp {
+// exhaustive alphabet: keys a, ab, b (a and ab tie under the first-byte
+// comparator)
+var c19ExhaustiveKeys = []string{"a", "ab", "b"}
+
+var c19ExhaustiveOps = func() []omOp {
 	var ops []omOp
-	for _, k := range []string{"a", "b", "c"} {
+	for _, k := range c19ExhaustiveKeys {
 		for _, v := range []int{0, 1} {
 			ops = append(ops, omOp{Kind: "set", K: k, V: v})
 		}
 	}
-	for _, k := range []string{"a", "b", "c"} {
+	for _, k := range c19ExhaustiveKeys {
 		ops = append(ops, omOp{Kind: "remove", K: k})
 	}
-	for _, k := range []string{"filter_v1", "filter_not_first_key", "map_flip", "sort_asc", "sort_desc", "sort_const", "json_new", "json_zero", "from_map"} {
+	for _, k := range []string{"filter_v1", "filter_not_first_key", "map_flip", "sort_asc", "sort_desc", "sort_const", "sort_tie_desc", "json_new", "json_zero", "from_map", "swap"} {
 		ops = append(ops, omOp{Kind: k})
 	}
+	ops = append(ops, omOp{Kind: "decode_new", Pairs: []omKV{{"b", 1}, {"a", 0}, {"b", 0}}})
+	ops = append(ops, omOp{Kind: "decode_zero", Pairs: []omKV{{"ab", 1}, {"ab", 0}, {"a", 1}}})
 	return ops
 }()
 
@@ -396,73 +537,81 @@ func TestC19(t *testing.T) {
 	run := vlib.Begin(t, "C19")
 	defer run.Finish(t)
 	run.Describe(
-		"(1) every sequence over 18 concrete operations (set a|b|c to 0|1, remove a|b|c, 2 filters, map, 3 sorts, JSON round-trip into New() and into the zero value, FromMap) up to the length bound, observed after every step (Len, Has/Get for every key, Iterate, Values, At(i) in range, MarshalJSON order, Equal, internal order/records bijection); (2) rapid state machine over a 6-key alphabet. Non-trivial: the sequence overwrites a key or removes/derives/sorts/encodes after at least two insertions; distinct by the operation sequence.",
+		"(1) every sequence over 22 concrete operations (set a|ab|b to 0|1, remove a|ab|b, 2 filters, map, 4 sorts incl. one whose comparator has ties, JSON round-trip into New() and into the zero value, FromMap, decoding two JSON texts with repeated members, swap to the map the current one was derived from) up to the length bound; after the last step of every sequence the complete API of the current map AND of the maps it was derived from is compared with the model (Len, Has/Get for every key, Iterate, Values, At(i) in range, MarshalJSON order, Equal, internal order/records bijection); (2) rapid sequences up to length 60 over a 24-key alphabet with bulk inserts (so sorts see more than 12 keys with ties). Non-trivial: the sequence overwrites a key or removes/derives/sorts/encodes after at least two insertions; distinct by the operation sequence.",
 		"At(i) is only called for 0<=i<Len (out-of-range index is a caller error)",
-		"UnmarshalJSON is only exercised on a New() map or the zero value (decoding into a populated map is outside the constructor contract)",
+		"UnmarshalJSON is only exercised on a New() map or the zero value (decoding into a populated map is outside the constructor contract); a JSON text with a repeated member is decoded like successive Set calls",
 		"Set on a zero-value (non constructed) map is not generated",
 		"Equal is only required between maps holding at least one pair",
+		"a map derived with Filter/Map/FromMap/decoding is independent of its source: later operations on either must not show through the other",
 	)
 	if vlib.RunReplay(t, run, c19Check) {
 		return
 	}
 
-	// (1) bounded exhaustive
+	// (1) bounded exhaustive; in the thorough tier the first operation is
+	// partitioned over the shards.
 	maxLen := 4
+	shard, shards := 0, 1
 	if vlib.Thorough() {
 		maxLen = 5
+		shard, shards = getenvInt("VERIF_SHARD", 0), getenvInt("VERIF_SHARDS", 1)
 	}
-	if vlib.Thorough() && getenvInt("VERIF_SHARD", 0) != 0 {
-		maxLen = 0 // only shard 0 enumerates
-	}
-	if maxLen > 0 {
-		states := map[string]struct{}{}
-		transitions := 0
-		var failed []vlib.Violation
-		var rec func(prefix []omOp, model omModel)
-		rec = func(prefix []omOp, model omModel) {
-			if failed != nil {
-				return
-			}
-			states[fmtPairs(model)] = struct{}{}
-			if len(prefix) == maxLen {
-				return
-			}
-			for _, op := range c19Alphabet3 {
-				seq := append(append([]omOp{}, prefix...), op)
-				c := c19Case{Ops: seq}
-				transitions++
-				// observe only the last step: earlier steps were observed at the parent
-				vs := c19CheckLast(c)
-				key := uint64(0)
-				if c19Nontrivial(c) {
-					key = vlib.Hash(c)
-				}
-				run.Eval(key, "exhaustive")
-				if transitions%40009 == 1 {
-					run.Sample(map[string]any{"ops": fmt.Sprint(seq)})
-				}
-				if un := run.Judge(c, vs); len(un) > 0 {
-					failed = un
-					return
-				}
-				if len(vs) > 0 {
-					continue // known finding: do not extend a sequence past it
-				}
-				rec(seq, model.apply(op))
-			}
-		}
-		rec(nil, omModel{})
-		run.SetExhaustive(len(states), transitions)
-		run.SetExtra("exhaustive_max_len", maxLen)
+	states := map[string]struct{}{}
+	transitions := 0
+	var failed []vlib.Violation
+	var rec func(prefix []omOp, model omModel)
+	rec = func(prefix []omOp, model omModel) {
 		if failed != nil {
-			vlib.Fail(t, failed)
 			return
 		}
+		states[fmtPairs(model)] = struct{}{}
+		if len(prefix) == maxLen {
+			return
+		}
+		for oi, op := range c19ExhaustiveOps {
+			if len(prefix) == 0 && oi%shards != shard {
+				continue
+			}
+			seq := append(append([]omOp{}, prefix...), op)
+			c := c19Case{Ops: seq}
+			transitions++
+			vs := c19Exec(c, c19ExhaustiveKeys, false)
+			key := uint64(0)
+			if c19Nontrivial(c) {
+				key = vlib.Hash(c)
+			}
+			run.Eval(key, "exhaustive")
+			if transitions%40009 == 1 {
+				run.Sample(map[string]any{"ops": fmt.Sprint(seq)})
+			}
+			if un := run.Judge(c, vs); len(un) > 0 {
+				failed = un
+				return
+			}
+			if len(vs) > 0 {
+				continue // known finding: do not extend a sequence past it
+			}
+			nm := model
+			if op.Kind != "swap" {
+				nm = model.apply(op)
+			}
+			rec(seq, nm)
+		}
+	}
+	rec(nil, omModel{})
+	run.SetExhaustive(len(states), transitions)
+	run.SetExtra("exhaustive_max_len", maxLen)
+	if failed != nil {
+		vlib.Fail(t, failed)
+		return
 	}
 
 	// (2) random long sequences
-	keys := rapid.SampledFrom([]string{"a", "b", "c", "d", "e", "f"})
-	kinds := rapid.SampledFrom([]string{"set", "set", "set", "set", "remove", "remove", "filter_v1", "filter_not_first_key", "map_flip", "sort_asc", "sort_desc", "sort_const", "json_new", "json_zero", "from_map"})
+	keys := rapid.SampledFrom(c19RandomAlphabet)
+	kinds := rapid.SampledFrom([]string{"set", "set", "set", "set_many", "set_many", "remove", "remove", "filter_v1", "filter_not_first_key", "map_flip", "sort_asc", "sort_desc", "sort_const", "sort_tie_asc", "sort_tie_desc", "json_new", "json_zero", "from_map", "swap", "decode_new", "decode_zero"})
+	pairGen := rapid.Custom(func(rt *rapid.T) omKV {
+		return omKV{K: keys.Draw(rt, "k"), V: rapid.IntRange(0, 3).Draw(rt, "v")}
+	})
 	rapid.Check(t, func(rt *rapid.T) {
 		n := rapid.IntRange(1, 60).Draw(rt, "n")
 		c := c19Case{}
@@ -474,6 +623,10 @@ func TestC19(t *testing.T) {
 				op.V = rapid.IntRange(0, 3).Draw(rt, "v")
 			case "remove":
 				op.K = keys.Draw(rt, "k")
+			case "set_many":
+				op.Pairs = rapid.SliceOfN(pairGen, 4, 24).Draw(rt, "pairs")
+			case "decode_new", "decode_zero":
+				op.Pairs = rapid.SliceOfN(pairGen, 0, 8).Draw(rt, "pairs")
 			}
 			c.Ops = append(c.Ops, op)
 		}
@@ -482,43 +635,67 @@ func TestC19(t *testing.T) {
 		if c19Nontrivial(c) {
 			key = vlib.Hash(c)
 		}
-		run.Eval(key, "random", fmt.Sprintf("random_len_%d0s", len(c.Ops)/10))
-		if len(c.Ops) > 8 {
+		labels := []string{"random", fmt.Sprintf("random_len_%d0s", len(c.Ops)/10)}
+		labels = append(labels, c19Labels(c)...)
+		run.Eval(key, labels...)
+		if len(c.Ops) > 4 && len(c.Ops) < 12 {
 			run.Sample(map[string]any{"ops": fmt.Sprint(c.Ops)})
 		}
 		vlib.Fail(rt, run.Judge(c, vs))
 	})
 }
 
-// c19CheckLast replays the prefix without observing and observes after the
-// last step only (used by the exhaustive enumeration, where every prefix was
-// already observed at its own node).
-func c19CheckLast(c c19Case) []vlib.Violation {
-	alphabet := []string{"a", "b", "c"}
-	m := orderedmap.New[string, int]()
+// c19Labels classifies a sequence by replaying the model.
+func c19Labels(c c19Case) []string {
+	var out []string
 	model := omModel{}
-	for i, op := range c.Ops {
-		var err error
-		sig, msg, panicked := vlib.Guard(func() { m, err = omApply(m, op) })
-		if panicked {
-			return []vlib.Violation{vlib.V("panic:"+op.Kind+":len"+lenClass(len(model))+":"+sig, "step %d %s on %s panicked: %s", i, op, fmtPairs(model), msg)}
-		}
-		if err != nil {
-			return []vlib.Violation{vlib.V("error:"+op.Kind, "step %d %s on %s: %v", i, op, fmtPairs(model), err)}
-		}
-		model = model.apply(op)
-		if i == len(c.Ops)-1 {
-			var vs []vlib.Violation
-			sig, msg, panicked = vlib.Guard(func() { vs = omObserve(m, model, alphabet) })
-			if panicked {
-				return []vlib.Violation{vlib.V("panic:observe:"+sig, "observing after step %d %s panicked: %s", i, op, msg)}
-			}
-			for j := range vs {
-				vs[j].Sig = vs[j].Sig + ":after:" + op.Kind
-				vs[j].Msg = fmt.Sprintf("after ops %v: %s", c.Ops, vs[j].Msg)
-			}
-			return vs
+	var shadow omModel
+	hasShadow := false
+	seen := map[string]bool{}
+	add := func(l string) {
+		if !seen[l] {
+			seen[l] = true
+			out = append(out, l)
 		}
 	}
-	return nil
+	for _, op := range c.Ops {
+		switch {
+		case op.Kind == "swap":
+			if hasShadow {
+				model, shadow = shadow, model
+				add("swap_to_source")
+			}
+			continue
+		case strings.HasPrefix(op.Kind, "sort_tie") && len(model) > 12:
+			firsts := map[byte]int{}
+			for _, p := range model {
+				firsts[p.k[0]]++
+			}
+			for _, n := range firsts {
+				if n > 1 {
+					add("tie_sort_over_12_keys")
+				}
+			}
+		case strings.HasPrefix(op.Kind, "decode"):
+			ks := map[string]bool{}
+			for _, p := range op.Pairs {
+				if ks[p.K] {
+					add("decode_repeated_member")
+				}
+				ks[p.K] = true
+			}
+		case op.Kind == "remove" && model.find(op.K) < 0:
+			add("remove_absent")
+		}
+		if derivesNewMap(op.Kind) {
+			shadow, hasShadow = model, true
+			if len(model) > 0 {
+				add("derive_from_nonempty")
+			}
+		} else if hasShadow && len(shadow) > 0 {
+			add("mutate_after_derive")
+		}
+		model = model.apply(op)
+	}
+	return out
 }
